@@ -46,7 +46,8 @@ let parse_stage toks =
   { s_reqs = List.map nat_s (split_on ',' (f "reqs")); s_join = join_of_string (f "join");
     s_threshold = z_s (f "thr"); s_cof = b01 (f "cof"); s_fp = b01 (f "fp");
     s_enabled = opt b01 (f "en"); s_mutex = opt nat_s (f "mutex"); s_choice = opt nat_s (f "choice");
-    s_max_jumps = opt z_s (f "maxj"); s_status = NOT_STARTED; s_started = false; s_ended = false;
+    s_max_jumps = opt z_s (f "maxj"); s_split_or = b01 (f "sor");
+    s_conds = List.map (fun p -> match split_on ':' p with [k; v] -> (nat_s k, b01 v) | _ -> failwith ("cond " ^ p)) (split_on ',' (f "conds")); s_status = NOT_STARTED; s_started = false; s_ended = false;
     s_version = Z0; s_fired = false; s_branches = []; s_bypass = false; s_jump_count = Z0; s_buffered = [];
     s_signal = None; s_has_exc = false; s_plan_pending = false; s_hydrated = []; s_ctx = kv_of_string (f "ctx"); s_outs = [];
     s_tasks = (let dis = List.map int_of_string (split_on ',' (f "dis")) in
